@@ -2127,6 +2127,14 @@ class LogicalFile:
         set name (e.g. the default one) for a given type would both be written with all objects of that shared set.
         """
 
+        # the file header set is not enlisted in _eflr_sets; a ready-made header may have been put in a set with others
+        fh_set = self.file_header_item.parent
+        if fh_set.n_items != 1:
+            raise RuntimeError(
+                f"{fh_set} of a logical file must hold the file header of that logical file only; "
+                f"found {fh_set.n_items} items in it"
+            )
+
         for other in self.physical_file.logical_files:
             if other is self:
                 continue
